@@ -86,18 +86,29 @@ func callTyped(ctx context.Context, c caller, para string, in any, chunks []any,
 	return o, res
 }
 
+// panicFrame: the eino function in which the (original) panic was raised. With nested panics (a
+// deferred function panicking again) the stack lists the latest first: the origin is the frame
+// below the last "panic(" entry.
 func panicFrame(p *mon.Panic) string {
-	f := p.FirstFrame("github.com/cloudwego/eino/")
-	if f == "" {
-		return "unknown-frame"
+	lines := strings.Split(p.Stack, "\n")
+	start := 0
+	for i, l := range lines {
+		if strings.HasPrefix(l, "panic(") {
+			start = i + 1
+		}
 	}
-	if i := strings.Index(f, "github.com/cloudwego/eino/"); i >= 0 {
-		f = f[i+len("github.com/cloudwego/eino/"):]
+	for _, l := range lines[start:] {
+		if strings.HasPrefix(l, "\t") || !strings.Contains(l, "github.com/cloudwego/eino/") {
+			continue
+		}
+		f := l[strings.Index(l, "github.com/cloudwego/eino/")+len("github.com/cloudwego/eino/"):]
+		if i := strings.LastIndexByte(f, '('); i > 0 {
+			f = f[:i]
+		}
+		f = strings.ReplaceAll(f, "[...]", "")
+		return strings.TrimSpace(f)
 	}
-	if b := strings.IndexByte(f, '['); b > 0 { // drop type arguments
-		f = f[:b]
-	}
-	return strings.TrimSpace(f)
+	return "unknown-frame"
 }
 
 func hasSub(s *tspec) bool {
@@ -137,12 +148,13 @@ func countNodes(s *tspec) (n int, types map[ty]bool, paras map[int]bool) {
 // typedCase generates, builds, runs and judges one typed program.
 func typedCase(ctx context.Context, rep *mon.Reporter, rng *mon.Rand, cfg mon.Config, sample bool) {
 	g := &tgen{r: rng, maxSegs: cfg.Pick(4, 5), maxNest: cfg.Pick(1, 2)}
+	g.lazyBias = rng.Prob(0.3)
 	cont := mon.PickOne(rng, []string{"pregel", "pregel", "dag", "dag", "chain", "workflow", "workflow"})
 	inTy := mon.PickOne(rng, []ty{tStr, tStr, tAny, tAny, tNamed, tPtr, tRec, tMap, tMap})
 	in := g.genInput(inTy)
 	spec := g.genSpec(cont, inTy, in, 0)
-	ref := evalSpec(spec, in)
 	env := &tenv{atomic: anyAtomic(spec)}
+	ref := evalSpec(spec, in, !env.atomic && (splittable(in, spec.In) || in == nil), refEnv{atomic: env.atomic})
 
 	wit := map[string]any{"program": spec.render(), "spec": spec, "input": canon(in), "reference": ref.String(), "nil_sites": ref.eventsStr()}
 	b := buildSpec(spec, env)
@@ -264,7 +276,9 @@ func judgeTyped(rep *mon.Reporter, spec *tspec, ref *rres, obs []tobs, wit map[s
 		return
 	}
 
+	// which paradigms deviate from the reference, per class of deviation
 	want := canon(ref.Val)
+	dev := map[string]string{}
 	for _, o := range obs {
 		var class string
 		switch {
@@ -277,10 +291,32 @@ func judgeTyped(rep *mon.Reporter, spec *tspec, ref *rres, obs []tobs, wit map[s
 		default:
 			continue
 		}
-		sig := ID + "/typed/" + ref.eventsStr() + "/" + o.Para + "/" + class
-		if !seen[sig] {
-			seen[sig] = true
-			rep.Violation(sig, detail, wit)
+		if !strings.Contains(dev[class], o.Para) {
+			dev[class] += o.Para
 		}
+	}
+	if len(dev) == 0 {
+		return
+	}
+	// the open findings in which the value is defined (the value forms are right) but the stream
+	// forms fail, or deliver chunks that do not concatenate
+	if dev["missing-error"] == "" && !strings.Contains(dev["unexpected-error"]+dev["wrong-value"], "I") {
+		onlyBroken := true
+		for _, o := range obs {
+			if !o.Failed && o.Val != want && !strings.HasPrefix(o.Val, "!not-concatenable") {
+				onlyBroken = false
+			}
+		}
+		if onlyBroken {
+			for _, m := range softOrder {
+				if ref.Soft[m] {
+					rep.Violation(ID+"/typed/open/"+m+"/failure-not-in-every-paradigm", detail, wit)
+					return
+				}
+			}
+		}
+	}
+	for _, class := range mon.SortedKeys(dev) {
+		rep.Violation(ID+"/typed/"+ref.eventsStr()+"/"+class+"/in-"+dev[class], detail, wit)
 	}
 }
